@@ -149,6 +149,12 @@ impl IsoDateTime {
         utc_epoch_nanos(self.date, &self.time)
     }
 
+    /// `GetUTCEpochNanoseconds` as a mathematical value: a date-time within the
+    /// date-time limits may lie up to a day outside of the `Instant` range.
+    pub(crate) fn as_unchecked_nanoseconds(&self) -> i128 {
+        to_unchecked_epoch_nanoseconds(self.date, &self.time)
+    }
+
     /// Specification equivalent to 5.5.9 `AddDateTime`.
     pub(crate) fn add_date_duration(
         &self,
